@@ -104,6 +104,7 @@ type Sched struct {
 	// returns true if the execution can be abandoned.
 	pruneFn func(idx int, fp uint64, cost int) bool
 
+	policy    int
 	strictDev bool // every departure from the default schedule costs 1
 	fpNoCur   bool // unbounded search: who is running does not matter
 
@@ -112,9 +113,26 @@ type Sched struct {
 
 var S = &Sched{}
 
+// TraceLog, if set, sees every observation as it is logged (debugging).
+var TraceLog func(string)
+
+// TraceSched, if set, is called at every scheduling decision (debugging).
+var TraceSched func(point int, now int64, enabled []string)
+
 // FingerprintIgnoresRunning is set by the explorer for unbounded searches,
 // where the identity of the running goroutine has no influence on the future.
 var FingerprintIgnoresRunning bool
+
+// Default scheduling policies: which goroutine runs by default when the running
+// one blocks (the running one always continues by default while it can).
+const (
+	PolicyOldestFirst = iota // lowest id
+	PolicyNewestFirst        // highest id
+	PolicyRoundRobin         // next id after the one that blocked
+)
+
+// DefaultPolicy is the policy used by the next executions.
+var DefaultPolicy int
 
 // StrictDeviations makes every scheduling alternative other than the default
 // one (keep running; else lowest id) cost one deviation, also at points where
@@ -341,7 +359,18 @@ func (s *Sched) schedule(self *G) {
 			evG = append(evG, self)
 			curEnabled = true
 		}
-		for _, g := range s.gs {
+		ng := len(s.gs)
+		for k := 0; k < ng; k++ {
+			// canonical order of the others depends on the default policy
+			var g *G
+			switch s.policy {
+			case PolicyNewestFirst:
+				g = s.gs[ng-1-k]
+			case PolicyRoundRobin:
+				g = s.gs[(self.id+1+k)%ng]
+			default:
+				g = s.gs[k]
+			}
 			if g == self || g.done || g.pend == nil {
 				continue
 			}
@@ -358,6 +387,16 @@ func (s *Sched) schedule(self *G) {
 			s.end(StDeadlock)
 			parkForever(self)
 			return
+		}
+		if TraceSched != nil {
+			var ds []string
+			for _, g := range evG {
+				ds = append(ds, fmt.Sprintf("g%d:%s:%s", g.id, g.Name, g.pend.kind))
+			}
+			for _, t := range due {
+				ds = append(ds, fmt.Sprintf("timer@%d#%d", t.when, t.seq))
+			}
+			TraceSched(len(s.trace), s.now, ds)
 		}
 		cost := 0
 		if curEnabled || s.strictDev {
@@ -450,6 +489,9 @@ func Log(format string, a ...any) {
 	}
 	Touch(&S.logH, 0x10)
 	S.obs = append(S.obs, fmt.Sprintf(format, a...))
+	if TraceLog != nil {
+		TraceLog(S.obs[len(S.obs)-1])
+	}
 }
 
 // Now returns virtual time in ns.
@@ -533,6 +575,7 @@ func RunOnce(main func(), prefix []int, maxSteps int, prune func(idx int, fp uin
 	s.pruneFn = prune
 	s.fpNoCur = FingerprintIgnoresRunning
 	s.strictDev = StrictDeviations
+	s.policy = DefaultPolicy
 	for _, h := range s.hooks {
 		h()
 	}
